@@ -416,3 +416,189 @@ theorem unrowsView_getD_self (s : List Nat) (axis : Nat) (hax : axis < s.length)
 
 end semiring
 end Mahotas.C06
+
+/-! ### the whole fast path of `convolve1d`: transpose, reshape, row kernel, reshape back, transpose back -/
+
+namespace Mahotas.C06
+open Mahotas
+
+section pipeline
+variable {α : Type} [Add α] [Mul α] [Zero α]
+
+/-- the 2-D buffer `tmp` after the C kernel ran: every write stores `T(cur)` (`cast`); a cell that was
+    never written would be uninitialised memory (`np.empty`) — it reads 0 here, and the theorem shows
+    that no such cell exists -/
+def tmpOfWrites (cast : α → α) (N0 N1 : Nat) (ws : List (Nat × Nat × α)) : Img α :=
+  { shape := [N0, N1], data := (applyWrites N0 N1 ws).map fun | some v => cast v | none => 0 }
+
+/-- the fast path of `convolve1d` (Python) as written: `f.transpose(indices).reshape((-1, N))`, the C
+    kernel `_convolve.convolve1d` on that 2-D array into `tmp` (the model's write sequence
+    `fastWrites`), then `tmp.reshape(tshape).transpose(rindices)` -/
+def convolve1dViaTranspose (cast : α → α) (m : Mode) (f : Img α) (axis : Nat) (w : Array α) : Img α :=
+  let N0 := shapeSize (otherShape f.shape axis)
+  let N1 := f.shape.getD axis 1
+  unrowsView f.shape axis (tmpOfWrites cast N0 N1 (fastWrites m (rowsView f axis) w N0 N1))
+
+end pipeline
+
+theorem cell_inj (N1 a b c d : Nat) (hb : b < N1) (hd : d < N1) (h : a * N1 + b = c * N1 + d) :
+    a = c ∧ b = d := by
+  have hN : 0 < N1 := by omega
+  have h1 : (a * N1 + b) / N1 = (c * N1 + d) / N1 := by rw [h]
+  have h2 : (a * N1 + b) % N1 = (c * N1 + d) % N1 := by rw [h]
+  rw [Nat.add_comm (a * N1) b, Nat.add_mul_div_right _ _ hN, Nat.div_eq_of_lt hb,
+    Nat.add_comm (c * N1) d, Nat.add_mul_div_right _ _ hN, Nat.div_eq_of_lt hd] at h1
+  rw [Nat.add_comm (a * N1) b, Nat.add_mul_mod_self_right, Nat.mod_eq_of_lt hb,
+    Nat.add_comm (c * N1) d, Nat.add_mul_mod_self_right, Nat.mod_eq_of_lt hd] at h2
+  omega
+
+theorem cell_lt (N0 N1 r x : Nat) (hr : r < N0) (hx : x < N1) : r * N1 + x < N0 * N1 := by
+  have h := Nat.mul_le_mul_right N1 (show r + 1 ≤ N0 by omega)
+  rw [Nat.add_mul] at h
+  omega
+
+/-- a cell hit by some write, all of whose writes store `G`, holds `G` at the end -/
+theorem applyWrites_fold_get {β : Type} (N1 : Nat) (ws : List (Nat × Nat × β)) (out : Array (Option β))
+    (i : Nat) (G : β) (hi : i < out.size)
+    (hall : ∀ t ∈ ws, t.1 * N1 + t.2.1 = i → t.2.2 = G)
+    (hex : (∃ t ∈ ws, t.1 * N1 + t.2.1 = i) ∨ out[i]? = some (some G)) :
+    (ws.foldl (fun out (t : Nat × Nat × β) => out.setIfInBounds (t.1 * N1 + t.2.1) (some t.2.2)) out)[i]? =
+      some (some G) := by
+  induction ws generalizing out with
+  | nil => simpa using hex
+  | cons t ts ih =>
+    simp only [List.foldl_cons]
+    apply ih
+    · simpa using hi
+    · intro t' ht'; exact hall t' (by simp [ht'])
+    · by_cases h : ∃ t' ∈ ts, t'.1 * N1 + t'.2.1 = i
+      · exact Or.inl h
+      · right
+        rw [Array.getElem?_setIfInBounds]
+        by_cases hti : t.1 * N1 + t.2.1 = i
+        · rw [if_pos hti, if_pos (by omega), hall t (by simp) hti]
+        · rw [if_neg hti]
+          rcases hex with ⟨t', ht', e⟩ | hex
+          · rcases List.mem_cons.1 ht' with rfl | ht'
+            · exact absurd e hti
+            · exact absurd ⟨t', ht', e⟩ h
+          · exact hex
+
+section semiring
+variable {R : Type} [CommSemiring R]
+
+theorem tmpOfWrites_getD (cast : R → R) (N0 N1 : Nat) (ws : List (Nat × Nat × R)) (r x : Nat) (G : R)
+    (hr : r < N0) (hx : x < N1)
+    (hall : ∀ t ∈ ws, t.1 * N1 + t.2.1 = r * N1 + x → t.2.2 = G)
+    (hex : ∃ t ∈ ws, t.1 * N1 + t.2.1 = r * N1 + x) :
+    (tmpOfWrites cast N0 N1 ws).getD [(r : Int), (x : Int)] 0 = cast G := by
+  have hlt := cell_lt N0 N1 r x hr hx
+  have h := applyWrites_fold_get N1 ws (Array.replicate (N0 * N1) none) (r * N1 + x) G
+    (by simpa using hlt) hall (Or.inl hex)
+  unfold tmpOfWrites Img.getD
+  simp only [inside_pair N0 N1 r (x : Int) hr (by omega) (by omega), if_true, ravelI_pair, Int.toNat_natCast]
+  rw [Array.getD_eq_getD_getElem?, Array.getElem?_map]
+  unfold applyWrites
+  rw [h]
+  rfl
+
+/-- every write of the row kernel targets a cell of the view and stores the border-loop value -/
+theorem fastWrites_border (m : Mode) (g : Img R) (w : Array R) (N0 N1 : Nat) (h : w.size < N1) :
+    ∀ t ∈ fastWrites m g w N0 N1, t.1 < N0 ∧ t.2.1 < N1 ∧ t.2.2 = fastBorder m g w N1 t.1 t.2.1 := by
+  intro t ht
+  unfold fastWrites at ht
+  rcases List.mem_append.1 ht with ht | ht
+  · obtain ⟨y, hy, ht⟩ := List.mem_flatMap.1 ht
+    obtain ⟨x, hx, rfl⟩ := List.mem_map.1 ht
+    have hx' : x < N1 := by have := (mem_interiorXs w.size N1 x h).1 hx; omega
+    exact ⟨List.mem_range.1 hy, hx', fastInterior_eq_border m g w N1 y x hx h⟩
+  · obtain ⟨x, hx, ht⟩ := List.mem_flatMap.1 ht
+    obtain ⟨y, hy, rfl⟩ := List.mem_map.1 ht
+    have hx' : x < N1 := by have := (mem_borderXs w.size N1 x h).1 hx; omega
+    exact ⟨List.mem_range.1 hy, hx', rfl⟩
+
+/-- every cell of the view is written -/
+theorem fastWrites_cover (m : Mode) (g : Img R) (w : Array R) (N0 N1 r x : Nat) (h : w.size < N1)
+    (hr : r < N0) (hx : x < N1) : ∃ t ∈ fastWrites m g w N0 N1, t.1 * N1 + t.2.1 = r * N1 + x := by
+  have hmem : x ∈ fastXs w.size N1 := ((fastXs_perm w.size N1 h).mem_iff).2 (List.mem_range.2 hx)
+  unfold fastXs at hmem
+  unfold fastWrites
+  rcases List.mem_append.1 hmem with hi | hb
+  · exact ⟨(r, x, fastInterior g w r x), List.mem_append_left _
+      (List.mem_flatMap.2 ⟨r, List.mem_range.2 hr, List.mem_map.2 ⟨x, hi, rfl⟩⟩), rfl⟩
+  · exact ⟨(r, x, fastBorder m g w N1 r x), List.mem_append_right _
+      (List.mem_flatMap.2 ⟨x, hb, List.mem_map.2 ⟨r, List.mem_range.2 hr, rfl⟩⟩), rfl⟩
+
+/-- the border loop on row `row of p` of the view = the border loop on `lineThrough f axis p` -/
+theorem fastBorder_rowsView (m : Mode) (f : Img R) (axis : Nat) (w : Array R) (p : List Int) (x : Nat)
+    (hax : axis < f.shape.length) (hp : inside f.shape p = true) :
+    fastBorder m (rowsView f axis) w (f.shape.getD axis 1) (rowIndex f.shape axis p) x =
+      fastBorder m (lineThrough f axis p) w (f.shape.getD axis 1) 0 x := by
+  have hN : (0 : Int) < ((f.shape.getD axis 1 : Nat) : Int) := by
+    have := getD_lt_of_inside f.shape p axis hp hax; omega
+  unfold fastBorder
+  apply List.foldl_ext
+  intro cur j _
+  rw [fixOffset_eq_spec m _ _ hN]
+  cases hb : borderSpec m ((x : Int) + (j : Int) - ((w.size / 2 : Nat) : Int))
+      ((f.shape.getD axis 1 : Nat) : Int) with
+  | none => rfl
+  | some o =>
+    have ho := borderSpec_range m _ _ hN o hb
+    simp only
+    rw [rowsView_getD f axis p o hax hp ho.1 ho.2, lineThrough_getD f axis p o ho.1 ho.2]
+
+/-- **the pipeline at a pixel**: the value `tmp.reshape(tshape).transpose(rindices)` holds at the
+    logical position `p` is the cast of the defining sum with the kernel embedded on `axis` -/
+theorem viaTranspose_getD (cast : R → R) (m : Mode) (f : Img R) (axis : Nat) (w : Array R)
+    (hax : axis < f.shape.length) (hw : w.size < f.shape.getD axis 1) (p : List Int)
+    (hp : inside f.shape p = true) :
+    (convolve1dViaTranspose cast m f axis w).getD p 0 =
+      cast (convSpec m f (embedShape f.shape.length axis w.size) w p) := by
+  have hx := getD_lt_of_inside f.shape p axis hp hax
+  have hr := rowIndex_lt f.shape axis p hp
+  have hxn : (p.getD axis 0).toNat < f.shape.getD axis 1 := by omega
+  unfold convolve1dViaTranspose
+  simp only
+  rw [unrowsView_getD_self f.shape axis hax _ rfl p hp, ← Int.toNat_of_nonneg hx.1,
+    tmpOfWrites_getD cast _ _ _ _ _
+      (fastBorder m (rowsView f axis) w (f.shape.getD axis 1) (rowIndex f.shape axis p) (p.getD axis 0).toNat)
+      hr hxn ?_ (fastWrites_cover m _ w _ _ _ _ hw hr hxn),
+    fastBorder_rowsView m f axis w p _ hax hp, fastBorder_line_eq_spec m f axis w p hp hax]
+  intro t ht hcell
+  obtain ⟨_, h2, h3⟩ := fastWrites_border m _ w _ _ hw t ht
+  obtain ⟨e1, e2⟩ := cell_inj _ _ _ _ _ h2 hxn hcell
+  rw [h3, e1, e2]
+
+theorem tabulate_toList {β : Type} (S : List Nat) (g : List Int → β) (d : β) :
+    (Img.tabulate S g).data.toList = (allPos S).map fun p => (Img.tabulate S g).getD p d := by
+  have : (Img.tabulate S g).data.toList = (allPos S).map g := by simp [Img.tabulate]
+  rw [this]
+  apply List.map_congr_left
+  intro p hp
+  rw [tabulate_getD S g p d (mem_allPos S p hp)]
+
+theorem toList_of_tabulate {β : Type} (im : Img β) (S : List Nat) (g : List Int → β) (d : β)
+    (h : im = Img.tabulate S g) (s : List Nat) (hs : im.shape = s) :
+    im.data.toList = (allPos s).map fun p => im.getD p d := by
+  subst h
+  have : S = s := hs
+  subst this
+  exact tabulate_toList S g d
+
+/-- **the pipeline as a whole** is the tabulated, cast defining sum with the kernel embedded on `axis` -/
+theorem viaTranspose_eq_spec (cast : R → R) (m : Mode) (f : Img R) (axis : Nat) (w : Array R)
+    (hax : axis < f.shape.length) (hw : w.size < f.shape.getD axis 1) :
+    (convolve1dViaTranspose cast m f axis w).shape = f.shape ∧
+    (convolve1dViaTranspose cast m f axis w).data.toList =
+      (allPos f.shape).map fun p => cast (convSpec m f (embedShape f.shape.length axis w.size) w p) := by
+  have hsh : (convolve1dViaTranspose cast m f axis w).shape = f.shape :=
+    (unrowsView_getD f.shape axis hax _ rfl).1
+  refine ⟨hsh, ?_⟩
+  rw [toList_of_tabulate (convolve1dViaTranspose cast m f axis w) _ _ 0 rfl f.shape hsh]
+  apply List.map_congr_left
+  intro p hp
+  exact viaTranspose_getD cast m f axis w hax hw p (mem_allPos _ _ hp)
+
+end semiring
+end Mahotas.C06
